@@ -22,6 +22,10 @@ Ev(e, k) == l <= Len(Trace) /\ Trace[l].ev = e /\ Trace[l].k = k /\ l' = l + 1
 TraceNext ==
   \/ Ev("create", "docs") /\ CreateDocs
   \/ Ev("create", "meta") /\ CreateMeta
+  \* a later store instance opens the files of an existing active fraction again (NewActive opens with
+  \* O_CREATE; seen in the repository's own tests, which restart a fraction manager inside one process)
+  \/ Ev("create", "docs") /\ pc = "active" /\ "docs" \in files /\ UNCHANGED vars
+  \/ Ev("create", "meta") /\ pc = "active" /\ "meta" \in files /\ UNCHANGED vars
   \/ Ev("ingest", "") /\ Ingest
   \/ Ev("create", "sdocsTmp") /\ SdocsCreate
   \/ Ev("sync", "sdocsTmp") /\ SdocsWrite
